@@ -316,7 +316,9 @@ theorem stop_table {s s' : State} {id code : Nat} {b : Bool} (h : s.stop id code
         · contradiction
         · split at h
           · contradiction
-          · simp only [Option.some.injEq, Prod.mk.injEq] at h; exact h.2.symm
+          · split at h
+            · contradiction
+            · simp only [Option.some.injEq, Prod.mk.injEq] at h; exact h.2.symm
       rw [hb]
       unfold RecvHalf.ofRecv; rw [hst]
       simp only [Bool.false_eq_true, ↓reduceIte]
